@@ -805,7 +805,17 @@ func c01R7(c *Ctx, r *Report, rule string) {
 				argOK := true
 				for _, w := range live {
 					if !derivesFrom(wrapCall.Call.Args[1], w) {
-						argOK = false
+						// a wrapper built by a constructor helper for ANOTHER Wrap of this function (the tee's branch
+						// connection next to the one handed on) is used, not passed over
+						usedElsewhere := false
+						for _, cj := range callsIn(fn) {
+							if oc, isCall := cj.(*ssa.Call); isCall && oc != wrapCall && calleeID(oc) == "layer4.(*Connection).Wrap" && len(oc.Call.Args) >= 2 && derivesFrom(oc.Call.Args[1], w) {
+								usedElsewhere = true
+							}
+						}
+						if !usedElsewhere {
+							argOK = false
+						}
 					}
 				}
 				r.check(recvOK && argOK, rule, name, kk, c.ipos(ci), "passes on cx.Wrap(conn built on cx)", "passes on a Wrap that is not Wrap of the conn built on the handler's own connection")
@@ -939,7 +949,59 @@ func c01R9(c *Ctx, r *Report, rule string) {
 				conns = append(conns, p)
 			}
 		}
+		underlyingF := func(v ssa.Value) bool {
+			ld, ok := v.(*ssa.UnOp)
+			if !ok || ld.Op != token.MUL {
+				return false
+			}
+			_, sn, _, ok := fieldAddr(ld.X)
+			return ok && sn == "layer4.Connection"
+		}
 		if len(conns) == 0 {
+			// a constructor helper of a wrapper (newNextConn(conn, pw)): the source is one of its parameters, and
+			// every call site lies in a function with a connection parameter and passes that connection (or a reader
+			// built on it)
+			sites, escapes := c.callSitesOf(fn)
+			if fn.Parent() != nil || escapes || len(sites) == 0 || fn.Pkg == nil || !strings.HasPrefix(fn.Pkg.Pkg.Path(), modPath) {
+				continue
+			}
+			m := 0
+			for _, ci := range callsIn(fn) {
+				if calleeID(ci) != "io.TeeReader" {
+					continue
+				}
+				m++
+				src := ci.Common().Args[0]
+				if mi, ok := src.(*ssa.MakeInterface); ok {
+					src = mi.X
+				}
+				if ci2, ok := src.(*ssa.ChangeInterface); ok {
+					src = ci2.X
+				}
+				pr, isParam := src.(*ssa.Parameter)
+				k := -1
+				if isParam {
+					k = paramIndex(fn, pr)
+				}
+				good := k >= 0
+				for _, site := range sites {
+					caller := site.Parent()
+					rootC := caller
+					for rootC.Parent() != nil {
+						rootC = rootC.Parent()
+					}
+					siteOK := false
+					if k >= 0 && k < len(site.Common().Args) {
+						for _, cp := range rootC.Params {
+							if isConnPtr(cp.Type()) && c.builtOn(caller, site.Common().Args[k], cp, underlyingF, 0) {
+								siteOK = true
+							}
+						}
+					}
+					good = good && siteOK
+				}
+				r.check(good, rule, fname(fn), fmt.Sprintf("TeeReader#%d source", m), c.ipos(ci), fmt.Sprintf("taps the connection itself at all %d call site(s) of this helper", len(sites)), "the tee reads from something other than the layer4 connection itself (e.g. its underlying Conn): bytes prefetched during matching are replayed from the buffer above the tap and never reach the tee's writer - the branch/upstream misses the start of the stream")
+			}
 			continue
 		}
 		n := 0
